@@ -116,6 +116,8 @@ def oracle(program, mods):
                 img0 = alt
                 run.c17.add('foreign-image')
     backing = io.BytesIO(img0)
+    # whether the image as mastered is valid is C03's question; here only what a modification adds counts
+    pre_clauses = set(c for c, _ in iso9660.read_iso(img0)['findings'])
     iso = pycdlib.PyCdlib()
     try:
         iso.open_fp(backing)
@@ -214,7 +216,7 @@ def oracle(program, mods):
         final = backing.getvalue()
         info = iso9660.read_iso(final)
         for clause, msg in info['findings']:
-            if clause in CLAUSES:
+            if clause in CLAUSES and clause not in pre_clauses:
                 failures.append(('C17/invalid-after-modify/%s' % clause, 'valid-image', msg[:300]))
         new = open_image(final)
         if isinstance(new, Exception):
